@@ -90,7 +90,11 @@ def run(ctx: Ctx) -> int:
             extra = [f"ds.Select(lambda e: {{'pt': {J}.Select(lambda j: j.pt()), 'lead': {J}.Where(lambda j: j.pt() > 30.0).First().pt()}})",
                      f"ds.Select(lambda e: ({J}.Select(lambda j: j.trkPts().Select(lambda t: t * 2)), {J}.Select(lambda j: j.eta()), {J}[1].pt()))",
                      f"ds.Select(lambda e: ({J}.Select(lambda j: j.pt()), e.{C}('B').First().eta(), {J}.Count()))",
-                     f"ds.Where(lambda e: {J}.Count() > 1).Select(lambda e: ({J}.Select(lambda j: j.nTrk()), {J}.Select(lambda j: j.trkPts().First())))"]
+                     f"ds.Where(lambda e: {J}.Count() > 1).Select(lambda e: ({J}.Select(lambda j: j.nTrk()), {J}.Select(lambda j: j.trkPts().First())))",
+                     f"ds.Select(lambda e: Range({J}.Count(), {J}.Count() + 3).Select(lambda i: i * 1))",
+                     f"ds.Select(lambda e: (Range(e.{C}('B').Count(), e.{C}('B').Count() + 2).Select(lambda i: i + {J}.Count()), {J}.Count()))",
+                     f"ds.SelectMany(lambda e: {J}).Select(lambda j: Range(j.nTrk(), j.nTrk() + 2).Sum())",
+                     f"ds.Select(lambda e: {J}.Select(lambda j: Range(j.nTrk(), j.nTrk() + 3).Select(lambda i: i)))"]
             ts = extra + [t for i, t in enumerate(guard_templates(backend, s)) if not ctx.quick or (i + ctx.seed) % 3 == 0]
             for i, t in enumerate(ts):
                 evs = evgen.gen_events(s, ctx.rng("c05tev", backend, i), nev)
